@@ -51,6 +51,12 @@ def generate(G):
     fwd("powf_m1_3", "Powf(-1.0)", [U([3], "Pos")], "quick", 6, stubs=("powf",))
     fwd("powf_m2_2", "Powf(-2.0)", [U([2], "Pos")], "thorough", 6, stubs=("powf",))
     fwd("powf0_2", "Powf(0.0)", [U([2])], "thorough", 6, stubs=("powf",))
+    # the point-wise definitions do not depend on tracking: tracked operands, zero bases included
+    fwd("powf_half_tracked_2", "Powf(0.5)", [G.leaf([2], "Sq", tracked=True)], "quick", 6, stubs=("powf",))
+    fwd("powf0_tracked_2", "Powf(0.0)", [G.leaf([2], "D4", tracked=True)], "thorough", 6, stubs=("powf",))
+    fwd("powf3_tracked_2", "Powf(3.0)", [G.leaf([2], "D4", tracked=True)], "thorough", 6, stubs=("powf",))
+    fwd("softmax_tracked_1x2x2", "Softmax", [G.leaf([1, 2, 2], "D2", tracked=True)], "thorough", 9, stubs=("exp", "powf"), inexact=True)
+    fwd("sum1_tracked_2x2", "Sum(1)", [G.leaf([2, 2], "D4", tracked=True)], "thorough", 8)
     fwd("ln_2x2", "Ln", [U([2, 2], "Pos")], "quick", 7, stubs=("ln",))
     fwd("exp_2x2", "Exp", [U([2, 2])], "quick", 7, stubs=("exp",))
     fwd("recip_2x2", "Recip", [U([2, 2], "Pos")], "quick", 7)
